@@ -110,6 +110,12 @@ func (x *Exec) verifyFunc(fn *ssa.Function, c *FuncContract) (err error) {
 	for i, p := range fn.Params {
 		x.probeValue(st.clone(), p.Name(), args[i], 0)
 	}
+	for _, l := range c.Lets {
+		x.probeValue(st.clone(), "let."+l.Name, st.ghost[l.Name], 2)
+	}
+	for _, g := range x.ghostNames {
+		x.probeValue(st.clone(), "ghost."+g, st.ghost[g], 2)
+	}
 	run := st.clone()
 	outs := x.runFunc(run, fn, args, nil, nil, c, "", fn.Pos())
 	nret := 0
